@@ -364,6 +364,8 @@ def build_condition(case, world=None, trace=None, tag=None, shared_data=None, mo
         kw["weight"] = case["weight"]
     if case.get("name"):
         kw["name"] = case["name"]
+    if case.get("track_gradients") is False and kind in ("pinn", "mean", "single"):
+        kw["track_gradients"] = False        # a condition whose residual needs no derivative of the model
     main_spec = case.get("sampler")
     if main_spec is not None and main_spec["op"] != "empty":
         s = build_sampler(main_spec, vars_, world)
